@@ -1527,3 +1527,87 @@ package ion
 //@ atcall[C16] (*Decoder).decodeLobTo (d.r.Type() == BlobType || d.r.Type() == ClobType) && !d.r.IsNull()
 //@ atcall[C16] (*Decoder).decodeStructTo d.r.Type() == StructType && !d.r.IsNull()
 //@ atcall[C16] (*Decoder).decodeSliceTo (d.r.Type() == ListType || d.r.Type() == SexpType) && !d.r.IsNull()
+
+// ---------------------------------------------------------------------------
+// decimal.go: arithmetic is exact (C14). See the spec file for the common-scale reading.
+
+//@ func (*Decimal).upscale
+//@ requires specDecWF(d) && scale >= d.scale
+//@ modifies nothing
+//@ ensures[C14] result != nil && result.n != nil && result.scale == scale && specBigEq(result.n, specDecUp(d, scale)) && !result.isNegZero
+
+//@ func rescale
+//@ split returns
+//@ requires specDecWF(a) && specDecWF(b)
+//@ modifies nothing
+//@ ensures[C14] specDecWF(result0) && specDecWF(result1) && result0.scale == specDecMaxScale(a, b) && result1.scale == specDecMaxScale(a, b)
+//@ ensures[C14] specBigEq(result0.n, specDecUp(a, specDecMaxScale(a, b))) && specBigEq(result1.n, specDecUp(b, specDecMaxScale(a, b)))
+
+//@ func (*Decimal).Add
+//@ requires specDecWF(d) && specDecWF(o)
+//@ modifies nothing
+//@ ensures[C14] specDecWF(result) && result.scale == specDecMaxScale(d, o)
+//@ ensures[C14] specBigEq(result.n, specBigAdd(specDecUp(d, specDecMaxScale(d, o)), specDecUp(o, specDecMaxScale(d, o))))
+
+//@ func (*Decimal).Sub
+//@ requires specDecWF(d) && specDecWF(o)
+//@ modifies nothing
+//@ ensures[C14] specDecWF(result) && result.scale == specDecMaxScale(d, o)
+//@ ensures[C14] specBigEq(result.n, specBigSub(specDecUp(d, specDecMaxScale(d, o)), specDecUp(o, specDecMaxScale(d, o))))
+
+//@ func (*Decimal).Mul
+//@ requires specDecWF(d) && specDecWF(o)
+//@ requires int64(d.scale)+int64(o.scale) <= math.MaxInt32 && int64(d.scale)+int64(o.scale) >= math.MinInt32
+//@ modifies nothing
+//@ ensures[C14] specDecWF(result) && int64(result.scale) == int64(d.scale)+int64(o.scale) && specBigEq(result.n, specBigMul(d.n, o.n))
+//@ safe[C14]
+
+//@ func (*Decimal).Neg
+//@ requires specDecWF(d)
+//@ modifies nothing
+//@ ensures[C14] specDecWF(result) && result.scale == d.scale && specBigEq(result.n, specBigNeg(d.n))
+
+//@ func (*Decimal).Abs
+//@ requires specDecWF(d)
+//@ modifies nothing
+//@ ensures[C14] specDecWF(result) && result.scale == d.scale && specBigEq(result.n, specBigAbs(d.n))
+
+//@ func (*Decimal).ShiftL
+//@ requires specDecWF(d)
+//@ requires int64(d.scale)-int64(shift) <= math.MaxInt32 && int64(d.scale)-int64(shift) >= math.MinInt32
+//@ modifies nothing
+//@ ensures[C14] specDecWF(result) && int64(result.scale) == int64(d.scale)-int64(shift) && specBigEq(result.n, d.n)
+//@ safe[C14]
+
+//@ func (*Decimal).ShiftR
+//@ requires specDecWF(d)
+//@ requires int64(d.scale)+int64(shift) <= math.MaxInt32 && int64(d.scale)+int64(shift) >= math.MinInt32
+//@ modifies nothing
+//@ ensures[C14] specDecWF(result) && int64(result.scale) == int64(d.scale)+int64(shift) && specBigEq(result.n, d.n)
+//@ safe[C14]
+
+//@ func (*Decimal).Sign
+//@ requires specDecWF(d)
+//@ modifies nothing
+//@ ensures[C14] result == d.n.Sign()
+
+//@ func (*Decimal).Cmp
+//@ requires specDecWF(d) && specDecWF(o)
+//@ modifies nothing
+//@ ensures[C14] result == specDecUp(d, specDecMaxScale(d, o)).Cmp(specDecUp(o, specDecMaxScale(d, o)))
+
+//@ func (*Decimal).Equal
+//@ requires specDecWF(d) && specDecWF(o)
+//@ modifies nothing
+//@ ensures[C14] result == specBigEq(specDecUp(d, specDecMaxScale(d, o)), specDecUp(o, specDecMaxScale(d, o)))
+
+// Truncate keeps the leading `precision` digits of the coefficient and moves the dropped
+// digit count into the exponent; a coefficient with no more digits than that is unchanged.
+//@ func (*Decimal).Truncate
+//@ split returns
+//@ requires specDecWF(d) && precision > 0 && precision < 1<<40
+//@ requires int64(d.scale)-int64(specDecDigits(d)-precision) >= math.MinInt32
+//@ modifies nothing
+//@ ensures[C14] specDecDigits(d) <= precision ==> result == d
+//@ ensures[C14] specDecDigits(d) > precision ==> specDecWF(result) && int64(result.scale) == int64(d.scale)-int64(specDecDigits(d)-precision)
+//@ ensures[C14] specDecDigits(d) > precision ==> specBigEq(result.n, specDecLeading(d, precision))
